@@ -226,3 +226,14 @@ prop("C14", "fault_enumeration",
      [dict(name="c14_g%d" % g, sources=["c14_fault.cpp"], flavour="asan", flags=["-DZOO_GROUP=%d" % g], deps=ZOO_DEPS + ["common/fachook.hpp"]) for g in (0, 1, 2)],
      assumptions=TRUST + ["the fault is injected by a wrapper around the user's operator; PartialSVDSolver is not covered because its operator is internal"],
      exhaustive=True)
+
+
+# ------------------------------------------------------------------------------------------ C20
+prop("C20", "exploration",
+     "ThreadSanitizer build (g++). A case is one launch: a task list of ~2 tasks per solver configuration (17 configurations; one clean input and one with few distinct eigenvalues so that the "
+     "restart path runs at different Krylov steps), plus tasks whose solvers share ONE const Dense/Sparse{Sym,Gen}MatProd object; the main thread computes every snapshot sequentially, then 2..16 "
+     "threads start together and each executes its own random permutation of the list with sched_yield/usleep(0..200us) injected between operator applications. Oracle: zero ThreadSanitizer reports "
+     "(de-duplicated by stack pair) and every concurrent snapshot byte-identical to the sequential one. Non-trivial = a launch in which task executions of different threads overlapped in time "
+     "(measured from per-thread start/end stamps); distinct by (threads, first thread's order, launch number)",
+     [dict(name="c20_g%d" % g, sources=["c20_threads.cpp"], flavour="tsan", flags=["-DZOO_GROUP=%d" % g], deps=ZOO_DEPS + ["common/fachook.hpp"], max_workers=3) for g in (0, 1, 2)],
+     assumptions=TRUST + ["ThreadSanitizer sees the happens-before relation of the executions it observes; the evidence records how many cross-thread task pairs actually overlapped"])
